@@ -278,6 +278,7 @@ type batchResult struct {
 	Strategies map[string]int
 	Triggers   map[string]int
 	Steps      int64
+	MaxSteps   int
 	SimNs      float64
 	WallS      float64
 	Violating  []*sim.RunResult
@@ -342,6 +343,9 @@ func runBatch(b *built, prop, tier string, seed uint64, avoid []string, cfg tier
 		br.Runs += o.Runs
 		br.Nontrivial += o.Nontrivial
 		br.Steps += o.Steps
+		if o.MaxRunSteps > br.MaxSteps {
+			br.MaxSteps = o.MaxRunSteps
+		}
 		br.SimNs += o.SimNs
 		for _, h := range o.Distinct {
 			br.Distinct[h] = true
@@ -794,7 +798,7 @@ func writeEvidence(prop, tier string, seed uint64, b *built, batches []*batchRes
 			}
 			samples = append(samples, map[string]interface{}{"batch": br.Name, "run": s.Run, "run_seed": s.Seed, "scenario": scen, "strategy": s.Strategy, "steps": s.Steps, "sim_time_s": float64(s.SimNs) / 1e9, "faults": s.Faults, "event_log_head": lg})
 		}
-		batchInfo = append(batchInfo, map[string]interface{}{"name": br.Name, "avoided_known_triggers": br.Avoid, "runs": br.Runs, "non_trivial": br.Nontrivial, "wall_s": br.WallS, "violating_runs": len(br.Violating), "known_triggers_present_in_runs": br.Triggers})
+		batchInfo = append(batchInfo, map[string]interface{}{"name": br.Name, "avoided_known_triggers": br.Avoid, "runs": br.Runs, "non_trivial": br.Nontrivial, "wall_s": br.WallS, "violating_runs": len(br.Violating), "longest_run_steps": br.MaxSteps, "known_triggers_present_in_runs": br.Triggers})
 	}
 	faultFree := 0
 	_ = faultFree
